@@ -238,7 +238,7 @@ fn binrec(ctx: &mut Ctx, part: usize) {
         // x2 node: var absolute 2, then terminal, else terminal complemented
         let mut b = vec![];
         esc(&mut b, (1 << 5) | (0 << 3) | (1 << 2) | 0);
-        enc7(&mut b, 2);
+        enc7(&mut b, 1);
         b
     };
     let recs = records();
@@ -258,6 +258,7 @@ fn binrec(ctx: &mut Ctx, part: usize) {
     };
     ctx.group(&format!("binary node records part {part}"), |ctx| {
         let a = attrs(&[("kind", "bcdd"), ("part", "binrec")]);
+        let mut accepted = 0u64;
         for (pos, prefix) in [(2usize, vec![rec_term.clone()]), (3usize, vec![rec_term.clone(), valid_second.clone()])] {
             for (ri, (desc, rec)) in recs.iter().enumerate() {
                 if ri % 8 != part {
@@ -271,7 +272,8 @@ fn binrec(ctx: &mut Ctx, part: usize) {
                         file.extend(p);
                     }
                     file.extend(rec);
-                    file.extend(b"\n.end\n");
+                    // (the exporter writes ".end" right behind the last node byte)
+                    file.extend(b".end\n");
                     let case = || json!({"kind": "bcdd", "n": 3, "record_position": pos, "record": desc, "root": root, "file_hex": file.iter().map(|b| format!("{b:02x}")).collect::<String>()});
                     let mref = dd::fresh::<Bcdd>(n, &[0, 1, 2], 256, 16, 1);
                     let Some(res) = ctx.guarded(&a, case, || <Bcdd as Io>::import(&mref, &file)) else {
@@ -281,10 +283,15 @@ fn binrec(ctx: &mut Ctx, part: usize) {
                     let live = match res {
                         Ok(v) => {
                             ctx.outcome("accepted");
+                            accepted += 1;
                             v
                         }
-                        Err(_) => {
+                        Err(e) => {
                             ctx.outcome("rejected");
+                            ctx.outcome(&format!("rejected: {}", e.to_string().chars().take(60).collect::<String>()));
+                            if std::env::var_os("VERIF_DEBUG_BINREC").is_some() {
+                                eprintln!("DBG pos {pos} root {root} {desc}: {e}");
+                            }
                             vec![]
                         }
                     };
@@ -315,6 +322,10 @@ fn binrec(ctx: &mut Ctx, part: usize) {
                     }
                 }
             }
+        }
+        if accepted == 0 {
+            // the enumeration contains valid records; if none is accepted the template is broken
+            println!("M binrec part {part}: not a single record was accepted - the file template does not match the format any more");
         }
         ctx.sample(|| json!({"kind": "bcdd", "record_position": 3, "record": recs[100].0}));
     });
